@@ -83,9 +83,24 @@ func (e *bndEngine) lenModel(p *prover, x *ssa.Call, cal *ssa.Function, k string
 	case FuncName(cal) == "(*gostatsd.MetricMap).Split":
 		p.eqFact(linVar(k), p.lin(x.Call.Args[1]), "Split(count) returns count maps")
 		p.used["summary: MetricMap.Split(count) returns a slice of length count (witnessed by C06.R2 Split:maps-sized-by-count and Split:returns-maps)"] = true
-	case strings.HasPrefix(name, "golang.org/x/exp/maps.Keys") || strings.HasPrefix(name, "maps.Keys") || strings.HasPrefix(name, "golang.org/x/exp/maps.Values"):
+	case strings.HasPrefix(name, "golang.org/x/exp/maps.Keys") || strings.HasPrefix(name, "golang.org/x/exp/maps.Values"):
 		p.eqFact(linVar(k), p.lenOf(x.Call.Args[0]), "maps.Keys/Values return one element per entry")
 		p.used["model: maps.Keys(m) has len(m) elements"] = true
+	case strings.HasPrefix(name, "slices.Sorted[") || strings.HasPrefix(name, "slices.Collect[") || name == "slices.Sorted" || name == "slices.Collect":
+		// slices.Sorted(maps.Keys(m)) / slices.Collect(maps.Values(m)): one element per map entry
+		if it, ok := x.Call.Args[0].(*ssa.Call); ok {
+			if ic := staticCallee(it); ic != nil && (strings.HasPrefix(ic.String(), "maps.Keys") || strings.HasPrefix(ic.String(), "maps.Values")) {
+				p.eqFact(linVar(k), p.lenOf(it.Call.Args[0]), "collecting the keys/values of a map yields one element per entry")
+				p.used["model: slices.Sorted/Collect(maps.Keys/Values(m)) has len(m) elements"] = true
+			}
+		}
+	case strings.HasPrefix(name, "slices.AppendSeq[") || name == "slices.AppendSeq":
+		if it, ok := x.Call.Args[1].(*ssa.Call); ok {
+			if ic := staticCallee(it); ic != nil && (strings.HasPrefix(ic.String(), "maps.Keys") || strings.HasPrefix(ic.String(), "maps.Values")) {
+				p.eqFact(linVar(k), p.lenOf(x.Call.Args[0]).add(p.lenOf(it.Call.Args[0])), "appending the keys/values of a map adds one element per entry")
+				p.used["model: slices.AppendSeq(s, maps.Keys/Values(m)) has len(s)+len(m) elements"] = true
+			}
+		}
 	}
 }
 
